@@ -263,7 +263,7 @@ Proof.
   assert (H1 : auth_state s1).
   { apply put_view_auth; [exact H|]. apply auth_view_bump.
     eapply auth_view_same; [apply same_votes_with_phs|]. apply get_view_auth; exact H. }
-  set (s2 := log_w (set_rounds s1 _) _).
+  set (s2 := ev_w (log_w (set_rounds s1 _) _) _).
   assert (H2 : auth_state s2) by exact H1.
   destruct (negb _); [intros E; inversion E; subst; exact H2|].
   pose proof (auth_backfill s2 p H2) as H3.
@@ -336,7 +336,7 @@ Proof.
   { apply auth_view_bump. eapply auth_view_same; [apply same_votes_with_sum|exact Hv1]. }
   set (s1 := put_view s vid v2).
   assert (H1 : auth_state s1) by (apply put_view_auth; assumption).
-  set (s2 := log_w (set_rounds s1 _) _).
+  set (s2 := ev_w (log_w (set_rounds s1 _) _) _).
   assert (H2 : auth_state s2) by exact H1.
   destruct (kind =? KPrevote).
   - destruct (vid =? ViewIDNextRound).
